@@ -70,7 +70,8 @@ static int32 parser_model(ssl_t *ssl, uint8_t type, unsigned char **cp, unsigned
         gh.type[i] = type; gh.state_at[i] = ssl->hsState; gh.msg_start[i] = *cp; gh.msg_end[i] = end;
         rc = g_in.rc[i];
         if ((unsigned long) (end - *cp) >= g_in.adv[i]) { *cp += g_in.adv[i]; }
-        if (rc >= 0 || rc == SSL_PROCESS_DATA) { ssl->hsState = g_in.next[i]; }
+        /* successor state: any, except HELLO_VERIFY_REQUEST, which no parser of hsDecode.c assigns (only the DTLS arm of parseSSLHandshake does) */
+        if ((rc >= 0 || rc == SSL_PROCESS_DATA) && g_in.next[i] != SSL_HS_HELLO_VERIFY_REQUEST) { ssl->hsState = g_in.next[i]; }
         else if (rc > -1 || rc < -49) { rc = MATRIXSSL_ERROR; }
     }
     gh.calls++;
@@ -155,6 +156,8 @@ HARNESS_BEGIN
     g_ssl.hsState = MODE_HSSTATE;
     g_ssl.flags = MODE_SERVER ? (in.flags | SSL_FLAGS_SERVER) : (in.flags & ~SSL_FLAGS_SERVER);
     g_ssl.err = SSL_ALERT_NONE;
+    /* a TLS (not DTLS) session never stores a HelloVerifyRequest cookie (zeroed at creation, only the DTLS arm writes it) */
+    g_ssl.haveCookie = 0; g_ssl.cookie = NULL; g_ssl.cookieLen = 0;
     g_ssl.hsPool = NULL;
     g_sid.sessionTicket = NULL; g_sid.sessionTicketLen = 0; g_sid.pool = NULL;
     g_sid.sessionTicketState = in.ticketState;
